@@ -286,6 +286,35 @@ fn exec_op(
             end_op(run, tid, idx, start, res, None, None);
             Ok(())
         }
+        Op::CloneInside { src, dst, via_default } => {
+            let mock = mock_of(run, *src);
+            let start = begin_op(run, tid, idx, None, mock);
+            let res = match get_slot(run, *src) {
+                None => OpResult::Skipped("slot empty".into()),
+                Some(h) => {
+                    if run.slots[*dst as usize].lock().unwrap().is_some() {
+                        OpResult::Skipped("destination occupied".into())
+                    } else {
+                        let r = catch_unwind(AssertUnwindSafe(|| if *via_default { (*h).stash_prov(0) } else { (*h).stash_req(0) }));
+                        release_handle(run, *src, h);
+                        match (r, stash_take()) {
+                            (Ok(_), Some(c)) => {
+                                run.slot_mock[*dst as usize].store(mock as u64, Ordering::SeqCst);
+                                put_slot(run, *dst, Arc::new(c));
+                                OpResult::Done
+                            }
+                            (Ok(_), None) => OpResult::Info("the answer function did not run".into()),
+                            (Err(p), c) => {
+                                let _ = catch_unwind(AssertUnwindSafe(move || drop(c)));
+                                panic_text(p.as_ref())
+                            }
+                        }
+                    }
+                }
+            };
+            end_op(run, tid, idx, start, res, None, None);
+            Ok(())
+        }
         Op::FreshThreads { kind } => {
             let start = begin_op(run, tid, idx, None, 0);
             thread_local! {
